@@ -16,9 +16,11 @@
 (*   Idempotent      ... and expanding the result again changes nothing                        *)
 (*                   (RawTextEscaped: the one class of documents - script/style content with  *)
 (*                   < > & - where both fail in the way the design model predicts)             *)
-(*   ContextRestored after the expansion the caller's Context has the locals, local stack,    *)
-(*                   repeat stack, repeat map and built-ins it had; its globals grew only by  *)
-(*                   explicit global defines and no other global changed                      *)
+(*   ContextRestored after the expansion Context.evaluate answers for every name the template *)
+(*                   binds (and its repeat/<name>) what it answered before; the locals, local *)
+(*                   stack, repeat stack, repeat map and built-ins are as before (as far as   *)
+(*                   observable); globals grew only by explicit global defines and no other   *)
+(*                   global changed                                                           *)
 (* Expansions that raise are C17's business (Completes) and are not judged here.              *)
 EXTENDS TraceC17
 
@@ -38,8 +40,15 @@ NoRText(toks) == SelectSeq(toks, LAMBDA k : k.t # "rtext")
 Names(nv) == {nv[i].n : i \in DOMAIN nv}
 ValOf(nv, n) == nv[CHOOSE i \in DOMAIN nv : nv[i].n = n].v
 GDefs == Sem!GlobalDefines(TI.tree, 1)
+\* PUBLIC behaviour first: for every name the template binds, Context.evaluate answers after the expansion what it
+\* answered before (the name itself and repeat/<name>/number) - unless a `global` define rebinds that name.
+\* The internals (locals, stack depths, repeat map, built-ins) are compared as far as the harness could read them
+\* (a missing internal is -1 / empty on both sides).
+ProbesEqual(b, a) == /\ Len(a.probes) = Len(b.probes)
+                     /\ \A i \in DOMAIN b.probes : b.probes[i].n \notin GDefs => a.probes[i] = b.probes[i]
 Restored18(b, a) ==
-    /\ a.l = b.l /\ a.nls = b.nls /\ a.nrs = b.nrs /\ a.rm = b.rm /\ a.builtins = b.builtins /\ a.repeat_is_rm
+    /\ ProbesEqual(b, a)
+    /\ a.l = b.l /\ a.nls = b.nls /\ a.nrs = b.nrs /\ a.rm = b.rm /\ a.builtins = b.builtins
     /\ Names(b.g) \subseteq Names(a.g) /\ Names(a.g) \subseteq Names(b.g) \cup GDefs
     /\ \A n \in Names(b.g) \ GDefs : ValOf(a.g, n) = ValOf(b.g, n)
 
